@@ -1,5 +1,5 @@
 // ================= ASSUMED: foreign-crate / std types the freezer holds but whose state no contract mentions ============
-#[verifier::external_body] #[verifier::reject_recursive_types(K)] #[verifier::reject_recursive_types(V)] pub struct LruCache<K, V> { _k: core::marker::PhantomData<(K, V)> }
+#[verifier::external_body] #[verifier::reject_recursive_types(K)] #[verifier::reject_recursive_types(V)] pub struct LruCache<K, V> { _k: ::core::marker::PhantomData<(K, V)> }
 // the directory whose data files the handle cache holds (ghost representation invariant, see FreezerFiles::cache_ok)
 pub uninterp spec fn cache_base<K, V>(c: &LruCache<K, V>) -> int;
 impl<K, V> LruCache<K, V> {
